@@ -186,4 +186,23 @@ def fromCtc (ds : Dataset) : Outcome Out :=
   | .keyError => .keyError
   | .indexError => .indexError
 
+/-! ### Bool decider of the *consistency* hypothesis of the C15 theorems (proved equivalent to the
+`Prop` in `GeffProofs/CtcBridge.lean`; the harness cross-checks its own notion against it) -/
+
+/-- label `l` occurs in frame `t` -/
+def occursB (ds : Dataset) (l : Int) (t : Nat) : Bool :=
+  match ds.frames[t]? with
+  | some fr => fr.any (fun r => r.label = l)
+  | none => false
+
+/-- the frames in which label `l` occurs -/
+def timesOf (ds : Dataset) (l : Int) : List Nat := (List.range ds.frames.length).filter (occursB ds l)
+
+/-- rows with a parent name occurring labels, parent strictly before child, one parent row per label -/
+def consistentB (ds : Dataset) : Bool :=
+  let rows := ds.table.filter (fun r => decide (r.P > 0))
+  rows.all (fun r => !(timesOf ds r.L).isEmpty && !(timesOf ds r.P).isEmpty &&
+      (timesOf ds r.P).all (fun tp => (timesOf ds r.L).all (fun tc => decide (tp < tc))))
+    && decide ((rows.map (·.L)).Nodup)
+
 end Geff.Ctc
